@@ -39,12 +39,52 @@
     With a role filter the answer is the count of the attached sessions whose
     RECORDED authrole the filter selects ([realm_session_count_filtered]); the
     records are not a function of [att] alone (wamp.session.modify_details),
-    so no purely trace-based filtered statement is given. *)
+    so no purely trace-based filtered statement is given.
+
+    ON_JOIN / ON_LEAVE BALANCED.  An observer [z] that holds the exact
+    subscriptions [J] on wamp.session.on_join and [L] on wamp.session.on_leave
+    ([holds_sig (r_broker r) z J t_on_join MExact], state-based, at the start
+    of a window [mid] of the history) and is passive in the window ([zpassive]:
+    it sends nothing, is not dropped and is not sent ABORT / GOODBYE).
+    [observed z J L tr] is what it is told, in order: an EVENT through [J]
+    carrying one dictionary with "session" = s reads [(true, s)], an EVENT
+    through [L] whose first argument is the id s reads [(false, s)].
+    [sess_changes A tr] are the attachment changes the trace defines from the
+    attached ids [A]: [(true, x)] for an accepted JOIN, [(false, x)] for an end
+    (ODrop / ABORT / GOODBYE) of an attached session.
+
+    FOUND FALSE OF THE MODEL as literally stated (and of the router: only
+    REGISTER of wamp.* procedures is refused, router/dealer.go; PUBLISH to a
+    wamp.* topic is not, router/broker.go, and wamp.session.add_testament
+    accepts any topic): any client may publish a forged
+    wamp.session.on_leave / on_join event itself, or leave one as a testament
+    that the meta session publishes when the client goes
+    ([realm_on_join_on_leave_balanced_refuted]: the observer is told that
+    sessions 99 and 77 left, which never joined).  The true statement
+    ([realm_on_join_on_leave_balanced]) assumes [forges o = false] for every
+    operation from the START of the history (a forged testament stored before
+    the window is published inside it) and no authorizer (an authorizer may
+    rewrite an innocent message into a forging one).  Under these hypotheses
+    [observed ... = sess_changes ...] as LISTS: every change is announced
+    exactly once, nothing else is, and in the order of the changes — also
+    within one step (the GOODBYEs of wamp.session.kill_by_authrole / kill_all
+    precede the victims' on_leave events, victim by victim).  Readable
+    consequences: per session id the observer's events alternate
+    ([observer_events_alternate]), so an on_leave(s) is preceded in the window
+    by an on_join(s) unless s was attached at the window's start, and there is
+    exactly one on_leave per ended session.  Changed with respect to the
+    suggested statement: the window is [mid] after [pre] with no [post] (any
+    prefix of a history), attachment of the observer is stated from the trace,
+    and wamp.session.kill_all necessarily ends a passive observer (it is not
+    the caller), so the non-vacuity example uses kill_by_authrole for the
+    several-victims-in-one-step case. *)
 From Nexus Require Import Router.Realm Router.DealerLib Router.DealerReply Router.DealerTrace.
 From Nexus Require Import Router.RealmWf Router.RealmStep.
 From Nexus Require Import Router.RealmTraceLib Router.RealmTrace.
+From Nexus Require Import Router.BrokerWf.
 From Nexus Require Import Router.RealmTraceC18 Router.RealmTraceC18Att Router.RealmTraceC18Call
-     Router.RealmTraceC18Meta Router.RealmTraceC18Ex.
+     Router.RealmTraceC18Meta Router.RealmTraceC18Obs Router.RealmTraceC18Bal Router.RealmTraceC18Step
+     Router.RealmTraceC18Hist Router.RealmTraceC18Ex.
 
 (** ** Attachment *)
 Theorem realm_attached_is_trace : forall cfg ops,
@@ -241,3 +281,123 @@ Example histories_c18_answers :
     (exists d, nth_error (snd (run (init_realm AttEx.cfg0) AttEx.ops0)) (List.length AttEx.pre_get1) = Some [(10, RResult 4 [] [VDict d] [])]) /\
     nth_error (snd (run (init_realm AttEx.cfg0) AttEx.ops0)) (List.length AttEx.pre_get2) = Some [(10, RError c_CALL 5 [] e_no_such_session [] [])].
 Proof. exact AttEx.answers. Qed.
+
+(** ** realm_on_join_on_leave_balanced *)
+
+(** the literal statement (no hypothesis on what clients publish) is false *)
+Theorem realm_on_join_on_leave_balanced_refuted :
+    exists cfg pre mid z J L,
+      c_authz cfg = None /\ Forall op_ok (pre ++ mid) /\
+      k0 cfg + N.of_nat (List.length (pre ++ mid)) <= max_idN /\
+      In z (att [] (trace cfg pre)) /\
+      holds_sig (r_broker (fst (run (init_realm cfg) pre))) z J t_on_join MExact /\
+      holds_sig (r_broker (fst (run (init_realm cfg) pre))) z L t_on_leave MExact /\
+      (forall e, In e (trace_from (fst (run (init_realm cfg) pre)) mid) -> zpassive z e) /\
+      observed z J L (trace_from (fst (run (init_realm cfg) pre)) mid) <>
+      sess_changes (att [] (trace cfg pre)) (trace_from (fst (run (init_realm cfg) pre)) mid).
+Proof. exact Forge.balanced_refuted. Qed.
+Print Assumptions realm_on_join_on_leave_balanced_refuted.
+
+(** the true statement: no forging operation from the start of the history *)
+Theorem realm_on_join_on_leave_balanced : forall z J L cfg pre mid,
+    c_authz cfg = None ->
+    Forall op_ok (pre ++ mid) -> k0 cfg + N.of_nat (List.length (pre ++ mid)) <= max_idN ->
+    Forall (fun o => forges o = false) (pre ++ mid) ->
+    let r := fst (run (init_realm cfg) pre) in
+    In z (att [] (trace cfg pre)) ->
+    holds_sig (r_broker r) z J t_on_join MExact -> holds_sig (r_broker r) z L t_on_leave MExact ->
+    (forall e, In e (trace_from r mid) -> zpassive z e) ->
+    observed z J L (trace_from r mid) = sess_changes (att [] (trace cfg pre)) (trace_from r mid).
+Proof. exact window_balanced_proof. Qed.
+Print Assumptions realm_on_join_on_leave_balanced.
+
+(** the window is the segment of the history's trace after [pre] *)
+Theorem window_is_trace_segment : forall cfg pre mid,
+    trace cfg (pre ++ mid) = trace cfg pre ++ trace_from (fst (run (init_realm cfg) pre)) mid.
+Proof. exact trace_split. Qed.
+Print Assumptions window_is_trace_segment.
+
+(** per session id the observer's events alternate, starting with on_leave
+    exactly when the session was attached at the window's start *)
+Theorem observer_events_alternate : forall z J L cfg pre mid s,
+    c_authz cfg = None ->
+    Forall op_ok (pre ++ mid) -> k0 cfg + N.of_nat (List.length (pre ++ mid)) <= max_idN ->
+    Forall (fun o => forges o = false) (pre ++ mid) ->
+    let r := fst (run (init_realm cfg) pre) in
+    In z (att [] (trace cfg pre)) ->
+    holds_sig (r_broker r) z J t_on_join MExact -> holds_sig (r_broker r) z L t_on_leave MExact ->
+    (forall e, In e (trace_from r mid) -> zpassive z e) ->
+    alt (negb (nmem s (att [] (trace cfg pre)))) (about s (observed z J L (trace_from r mid))).
+Proof. exact observer_alternates_proof. Qed.
+Print Assumptions observer_events_alternate.
+
+(** the attachment changes of ANY trace alternate per session id *)
+Theorem attachment_changes_alternate : forall s tr A, alt (negb (nmem s A)) (about s (sess_changes A tr)).
+Proof. exact changes_alternate_proof. Qed.
+Print Assumptions attachment_changes_alternate.
+
+(** one step, with the two per-step hypotheses explicit: [gate_transparent]
+    (the authorization gate hands the message on unchanged) and [op_noforge]
+    (a PUBLISH is not to the two topics; a CALL that the dealer resolves to
+    wamp.session.add_testament does not name one of them).  [base k r]: the
+    reachable-state invariant, [inv18] and no forged testament stored;
+    [OBS z J L r]: the observer is attached and holds [J] and [L] *)
+Theorem step_on_join_on_leave_balanced : forall z J L r o k,
+    base k r -> k < max_idN -> op_ok o -> gate_transparent r o -> op_noforge r o ->
+    base (k + 1) (fst (step r o)) /\
+    (OBS z J L r -> (forall e, In e (step_events o (snd (step r o))) -> zpassive z e) ->
+     OBS z J L (fst (step r o)) /\
+     observed z J L (step_events o (snd (step r o))) = sess_changes (ids r) (step_events o (snd (step r o)))).
+Proof. exact step_bal. Qed.
+Print Assumptions step_on_join_on_leave_balanced.
+
+(** windows, with the per-step hypotheses through [along] *)
+Theorem realm_on_join_on_leave_balanced_partial : forall z J L mid r k,
+    base k r -> Forall op_ok mid -> k + N.of_nat (List.length mid) <= max_idN ->
+    along gate_transparent r mid -> along op_noforge r mid ->
+    base (k + N.of_nat (List.length mid)) (fst (run r mid)) /\
+    (OBS z J L r -> (forall e, In e (trace_from r mid) -> zpassive z e) ->
+     OBS z J L (fst (run r mid)) /\ observed z J L (trace_from r mid) = sess_changes (ids r) (trace_from r mid)).
+Proof. exact run_bal. Qed.
+Print Assumptions realm_on_join_on_leave_balanced_partial.
+
+(** a meta procedure is reached only under its own name: the registration a
+    procedure URI resolves to is registered by the meta session for exactly
+    that URI (so [forges] need only look at CALLs naming add_testament) *)
+Theorem meta_procedure_reached_by_name : forall r proc orc rg mproc,
+    realm_wf r -> mp_init r ->
+    match_procedure (r_dealer r) proc orc = Some rg -> nget (r_metaprocs r) (reg_id rg) = Some mproc -> mproc = proc.
+Proof. exact metaproc_name. Qed.
+Print Assumptions meta_procedure_reached_by_name.
+
+(** ** Non-vacuity: observer 10 (a local, "trusted" session); in the window
+    11 joins, is dropped, joins again; 12 and 13 join; 13 stores an innocent
+    testament; 12 kills every anonymous session but itself (11 and 13, one
+    step); 12 says GOODBYE *)
+Example histories_c18_observer_side_hypotheses_satisfiable :
+    c_authz ObsEx.cfg0 = None /\ Forall op_ok (ObsEx.pre0 ++ ObsEx.mid0) /\
+    k0 ObsEx.cfg0 + N.of_nat (List.length (ObsEx.pre0 ++ ObsEx.mid0)) <= max_idN /\
+    Forall (fun o => forges o = false) (ObsEx.pre0 ++ ObsEx.mid0).
+Proof. exact ObsEx.side. Qed.
+
+Example histories_c18_observer_hypotheses_satisfiable :
+    In 10 (att [] (trace ObsEx.cfg0 ObsEx.pre0)) /\
+    holds_sig (r_broker (fst (run (init_realm ObsEx.cfg0) ObsEx.pre0))) 10 1 t_on_join MExact /\
+    holds_sig (r_broker (fst (run (init_realm ObsEx.cfg0) ObsEx.pre0))) 10 2 t_on_leave MExact /\
+    (forall e, In e (trace_from (fst (run (init_realm ObsEx.cfg0) ObsEx.pre0)) ObsEx.mid0) -> zpassive 10 e).
+Proof. exact ObsEx.observer. Qed.
+
+Example histories_c18_observer_reads :
+    observed 10 1 2 (trace_from (fst (run (init_realm ObsEx.cfg0) ObsEx.pre0)) ObsEx.mid0) =
+      [(true, 11); (false, 11); (true, 11); (true, 12); (true, 13); (false, 11); (false, 13); (false, 12)] /\
+    sess_changes (att [] (trace ObsEx.cfg0 ObsEx.pre0)) (trace_from (fst (run (init_realm ObsEx.cfg0) ObsEx.pre0)) ObsEx.mid0) =
+      [(true, 11); (false, 11); (true, 11); (true, 12); (true, 13); (false, 11); (false, 13); (false, 12)] /\
+    about 11 (observed 10 1 2 (trace_from (fst (run (init_realm ObsEx.cfg0) ObsEx.pre0)) ObsEx.mid0)) = [true; false; true; false].
+Proof. exact ObsEx.reads. Qed.
+
+(** the refuting window: a forged PUBLISH and a forged testament *)
+Example histories_c18_forged_reads :
+    observed 10 1 2 (trace_from (fst (run (init_realm ObsEx.cfg0) ObsEx.pre0)) Forge.midF) = [(true, 11); (false, 99); (false, 77); (false, 11)] /\
+    sess_changes (att [] (trace ObsEx.cfg0 ObsEx.pre0)) (trace_from (fst (run (init_realm ObsEx.cfg0) ObsEx.pre0)) Forge.midF) = [(true, 11); (false, 11)] /\
+    map forges Forge.midF = [false; true; true; false].
+Proof. exact Forge.reads. Qed.
